@@ -671,6 +671,9 @@ func (h *histGen) newLabel() string {
 		n = fmt.Sprintf("lda.%d@%s", h.nlabel, strings.Repeat("long_", h.g.Intn(60)))
 	case 4:
 		n = fmt.Sprintf(".%d", h.nlabel)
+	case 5:
+		// names other assemblers give a meaning to: anonymous labels, local labels, current-address symbols
+		n = []string{"+", "-", "++", "--", "+-", "*", "@", "@@", "$", ".", "1f", "1b", "_"}[h.g.Intn(13)]
 	}
 	if h.used == nil {
 		h.used = map[string]bool{}
@@ -722,6 +725,19 @@ func (h *histGen) randIns(maxSize int) (hcall, bool) {
 			arg &= 0xFF // an address in page zero, a small constant
 		case 4:
 			arg = h.lastArg // the same operand as the previous instruction
+		case 5:
+			// the address of a label defined so far (callers write JSR_abs(uint16(addr)) by hand), or of
+			// the instruction itself
+			arg = h.sh.addr
+			if n := len(h.sh.labels); n > 0 {
+				k := g.Intn(n)
+				names := make([]string, 0, n)
+				for nm := range h.sh.labels {
+					names = append(names, nm)
+				}
+				sort.Strings(names)
+				arg = h.sh.labels[names[k]]
+			}
 		}
 		h.lastArg = arg
 		switch m.Arg {
@@ -875,6 +891,23 @@ func genHistory(g *vf.Rng, o histOpts) (calls []hcall, base string, dist map[str
 				h.dist[fmt.Sprintf("fwd%d", p)] = true
 			case 2: // reference to a label that may never be defined
 				l := h.newLabel()
+				if n := len(h.sh.labels); n > 0 && g.Intn(3) == 0 {
+					// ... whose name is built from a defined one: loop+2, loop-1, loop$10, LOOP, "loop "
+					names := make([]string, 0, n)
+					for nm := range h.sh.labels {
+						names = append(names, nm)
+					}
+					sort.Strings(names)
+					base := names[g.Intn(n)]
+					l = base + []string{"+2", "-1", "+$10", "+0", ".", "2", "_"}[g.Intn(7)]
+					if g.Intn(4) == 0 {
+						l = strings.ToUpper(base)
+					}
+					for h.used[l] {
+						l += "+1"
+					}
+					h.used[l] = true
+				}
 				if g.Intn(2) == 0 {
 					h.branch(l)
 				} else {
